@@ -90,7 +90,21 @@ func genData(r *rng, n int) []byte {
 		return nil
 	}
 	p := make([]byte, n)
-	switch r.intn(9) {
+	switch r.intn(10) {
+	case 9: // zero-heavy copies: repeats followed by zero bytes
+		for i := 0; i < n; {
+			if i > 6 && r.chance(60) {
+				src := r.intn(i)
+				l := r.rangeIn(3, 20)
+				for j := 0; j < l && i < n; j++ {
+					p[i] = p[src+j%(i-src)]
+					i++
+				}
+			} else {
+				p[i] = byte(r.pick(0, 0, 0, 1, 'a', 0xff))
+				i++
+			}
+		}
 	case 0: // uniform random
 		for i := range p {
 			p[i] = byte(r.u64())
